@@ -148,12 +148,6 @@ func checkpath(file string) string {
 					privfile = rpl.expr.ReplaceAllString(privfile, rpl.repl)
 				}
 			}
-		} else {
-			if strings.HasPrefix(privfile, "/Volumes/") {
-				if pos := strings.IndexRune(privfile[9:], '/'); pos >= 0 {
-					privfile = "~" + privfile[9+pos:]
-				}
-			}
 		}
 	}
 	if filepath.IsAbs(privfile) {
